@@ -2,7 +2,7 @@
 CONF = {
     'interesting': ['unequal-length-shared-prefix', 'equal-bytes-different-type', 'len-17-reject',
                     'reversed-pair', 'layer-flow'],
-    'rule': 'Op sequences over an append-only register file of endpoints and flows: NewEndpoint/NewFlow for 14 endpoint types (incl. negative, min/max int64) x raw lengths 0..18, pairs with shared prefixes / zero extensions / one-bit changes / equal bytes with different type, dense triples with all pairwise comparisons, random chains of FlowFromEndpoints/Endpoints/Src/Dst/Reverse, rejection above 16 bytes; and for each of the 12 layer flow constructors well-formed headers (both directions), truncations at and around the header length, header-field mutations and random bytes, decoded lazily through gopacket.NewPacket. After every op the pushed values (type, Raw, FastHash) or the comparison results (==, LessThan both ways, map insert+lookup, hash equality) are compared with the model; the implementation-side oracle checks the value laws and the layer/address/reverse/hash clauses directly.',
+    'rule': 'Op sequences over an append-only register file of endpoints and flows: NewEndpoint/NewFlow for 14 endpoint types (incl. negative, min/max int64) x raw lengths 0..18, pairs with shared prefixes / zero extensions / one-bit changes / equal bytes with different type, dense triples with all pairwise comparisons, random chains of FlowFromEndpoints/Endpoints/Src/Dst/Reverse, rejection above 16 bytes; and for each of the 12 layer flow constructors well-formed headers (both directions), truncations at and around the header length, header-field mutations and random bytes, decoded lazily through gopacket.NewPacket; plus whole Ethernet/IPv4|IPv6/TCP|UDP|SCTP packets (IP options, fragments, length-field variations, truncations, byte mutations) decoded eagerly in both directions. After every op the pushed values (type, Raw, FastHash) or the comparison results (==, LessThan both ways, map insert+lookup, hash equality) are compared with the model; the implementation-side oracle checks the value laws and the layer/address/reverse/hash clauses directly.',
     'shrink_keep_first': 0,
     'assumptions': ['bytes.Compare is lexicographic comparison with a proper prefix smaller (stdlib specification)',
                     'Go struct == and map key equality are componentwise equality of the representation',
